@@ -192,12 +192,23 @@ class Trunc(ReadBase):
             src = rng.choice(['cbk', 'cb', 'cbs'])
             blk = rng.choice(['w', '512', '10240', '513'])
             ops = [mk, f'run blk={blk} src={src} cons=A trunc=- fault=-']
-            for _ in range(5 if tier == 'quick' else 40):
+            for _ in range((14 if label.startswith('pax') else 5) if tier == 'quick' else 40):
                 ops.append(f'run blk={blk} src={src} cons=A trunc={rng.randrange(0, size)} fault=-')
             for _ in range(3 if tier == 'quick' else 12):
                 kind = rng.choice(['err', 'err', 'eof', 'skiperr', 'skipshort', 'seekerr'])
                 ops.append(f'run blk={blk if blk != "w" else "512"} src={src} cons=A trunc=- fault={kind}@{rng.choice([0, 1, 2, 3, 5, 8, 13, 30])}')
             yield Case(f'trunc:made:{label}', ops)
+        # filter-only streams read through the raw format: nothing but the filter's own framing can
+        # report a cut, so a truncated body must come with the filter's error
+        for filt in ['gzip', 'bzip2', 'xz', 'zstd', 'lz4', 'lzip', 'uuencode', 'b64encode']:
+            for _ in range(1 if tier == 'quick' else 6):
+                seed = rng.randrange(1, 10 ** 6)
+                src = rng.choice(['cbk', 'cb', 'cbs'])
+                blk = rng.choice(['w', '512', '10240'])
+                ops = [f'make fmt=raw filt={filt} seed={seed} n=1', f'run blk={blk} src={src} cons=A trunc=- fault=- raw=1']
+                for _ in range(6 if tier == 'quick' else 60):
+                    ops.append(f'run blk={blk} src={src} cons=A trunc={rng.randrange(0, 160000)} fault=- raw=1')
+                yield Case(f'trunc:raw:{filt}', ops)
 
 
 def mutate(rng, data):
